@@ -8,6 +8,8 @@ wt="$1"; patch="$2"
 cd "$(dirname "$0")" || exit 2
 . ./env.sh
 git -C "$wt" checkout -q -- . || exit 2
+# the scratch worktree follows /repo's committed tree
+git -C "$wt" checkout -q --detach "$(git -C /repo rev-parse HEAD)" || exit 2
 ( cd "$wt" && patch -p1 -s -f --no-backup-if-mismatch -i "$patch" >/dev/null ) || { echo "PATCH-DOES-NOT-APPLY"; git -C "$wt" checkout -q -- .; exit 3; }
 ( cd "$wt" && GOFLAGS=-mod=mod GOPROXY=off go build ./zygo ./cmd/zygo ) || { echo "DOES-NOT-COMPILE"; git -C "$wt" checkout -q -- .; exit 3; }
 out=$(mktemp -d /tmp/zyneutral.XXXXXX)
